@@ -64,6 +64,14 @@ NEEDS = {
     "C14-s14": ("C14", "term_histogram.rs maybe_build_collector drops the requirement that the histogram column be full", "top-level low-cardinality terms on a full column with exactly one histogram leaf whose field is missing in some documents of the segment: doc ids used as row ids"),
     "C07-s14": ("C07", "SegmentWriter::index_document (JSON branch): json_positions_per_path is cleared per VALUE instead of per document", "a JSON field indexed with positions and a document holding at least two values for that JSON field with text under the same path: positions of the later values restart at 0"),
     "C08-s14": ("C08", "optional index iter_non_null_docs rewritten block-wise with the per-block count cast to u16: a completely filled 65,536-row block counts 0 and is skipped", "a segment with more than 65,536 rows, an Optional / Multivalued column, an aligned block in which every row has a value, and a stacked merge (or the exists query)"),
+    "C01-s15": ("C01", "save_metas gets a wait_durable flag and end_merge passes false: after a committed merge meta.json is replaced but not made durable before the collection that follows", "a merge of committed segments ending and a crash between the collection's first delete and its own directory sync, with the un-synced unlinks applied and the un-synced meta.json replacement not applied"),
+    "C11-s15": ("C11", "end_merge only warns when writing the merged segment's catch-up delete file fails", "a merge of committed segments overlapping a commit that deletes from one of them, and an I/O fault on the creation of <merged>.<opstamp>.del: the deleted documents come back, the merge reports Ok"),
+    "C02-s15": ("C02", "end_merge of a committed merge re-saves meta.json with the merge's target opstamp instead of the active metas' opstamp", "a commit completing while a merge of committed segments is still running: meta.json drops back below the opstamp the last commit returned; a re-opened writer reuses opstamps and a delete can be lost"),
+    "C04-s15": ("C04", "SegmentRegisters::segments_status returns Committed whenever no source is uncommitted (also when the sources are in no register)", "delete_all_documents() while a merge is in flight: the merged segment is inserted into the committed register and meta.json is rewritten: the deleted documents come back without a commit"),
+    "C18-s15": ("C18", "IndexWriter::rollback releases the directory lock and re-acquires it for the replacement writer", "a live writer calling rollback() and a concurrent Index::writer() attempt between release and re-acquisition"),
+    "C20-s15": ("C20", "Index::validate_checksum selects files by Path::file_stem() == segment uuid: <uuid>.<opstamp>.del is left out", "a committed segment with deletes and a damaged .del file"),
+    "C05-s15": ("C05", "ManagedDirectory::garbage_collect treats LockBusy on the meta lock as a stale lock file and collects anyway", "the default lock-file protocol (RamDirectory / custom directory), a reader of a second Index instance whose reload holds .tantivy-meta.lock for more than 10 s (100 x 100 ms), and a merge + collection meanwhile"),
+    "C10-s15": ("C10", "register_file_as_managed holds the managed-paths lock only for the insertion and writes .managed.json from a cloned set afterwards", "two threads registering files at the same time, the first pre-empted while persisting: a stale list lands last, files of a committed segment are missing from .managed.json and become orphans after a restart"),
     "C08-s7": ("C08", "BitUnpacker::get_ids_for_value_range truncates the upper bound to 32 bits instead of clamping it", "a bit-packed column of width <= 32 and a range whose upper bound (after min/gcd normalisation) is >= 2^32 with low 32 bits below the matching values"),
 }
 
